@@ -5,5 +5,5 @@ Extraction "../build/c02/model.ml"
   N.of_nat N.to_nat empty_graph step node_ids get_node get_alias_source get_args list_imports
   get_pkg find_pkg_slot incoming outgoing alist_get
   decode_wiring decode_imports erase_defs mark_deps log_in_scope
-  wiring_spec spec_imports spec_export_names def_names topo_orderb
+  wiring_spec canon spec_import_needs spec_imports spec_export_names def_names topo_orderb
   toposort encode_with_order tau_replay unmark.
